@@ -109,13 +109,18 @@ def make_sampler(cfg, td, rng, which="tree"):
     """Build the sampler exactly as the run command does ('run') or as the library/tests do ('lib')."""
     from phyclone.smc.utils import RootPermutationDistribution
     from phyclone.mcmc.particle_gibbs import ParticleGibbsTreeSampler, ParticleGibbsSubtreeSampler
+    from phyclone.mcmc.gibbs_mh import DataPointSampler, PruneRegraphSampler
     import phyclone.run as prun
 
     outlier_prob = 0.2 if cfg["outl"] else 0
     if cfg["wiring"] == "run":
         kern = prun.setup_kernel(outlier_prob, PROPOSAL_NAME[cfg["kernel"]], rng, td)
         s = prun.setup_samplers(kern, cfg["np"], outlier_prob, cfg["thr"], rng, td)
-        return s.tree_sampler if which == "tree" else s.subtree_sampler
+        return {"tree": s.tree_sampler, "subtree": s.subtree_sampler, "dp": s.dp_sampler, "prg": s.prg_sampler}[which]
+    if which == "dp":
+        return DataPointSampler(td, rng, outliers=bool(cfg["outl"]))
+    if which == "prg":
+        return PruneRegraphSampler(td, rng)
     kern = c08.kernel_cls(cfg["kernel"])(td, rng, outlier_proposal_prob=(0.1 if cfg["outl"] else 0.0),
                                          perm_dist=RootPermutationDistribution())
     cls = ParticleGibbsTreeSampler if which == "tree" else ParticleGibbsSubtreeSampler
@@ -127,7 +132,7 @@ def cfg_label(cfg):
         cfg["wiring"], cfg["kernel"], cfg["outl"], cfg["n"], cfg["np"], cfg["thr"], cfg["dist"] + ("" if cfg["dist"] == "table" else ":a=%s" % cfg["alpha"]))
 
 
-def run_configs(ck, configs, table, which="tree", prop="C01", corrupt=None):
+def run_configs(ck, configs, table, which="tree", prop="C01", corrupt=None, sigfn=None):
     """Exact kernels for all configs (parallel over (config, start state)); stationarity verdicts."""
     tasks = []
     for ci, cfg in enumerate(configs):
@@ -171,9 +176,10 @@ def run_configs(ck, configs, table, which="tree", prop="C01", corrupt=None):
         ck.evaluations += paths
         ck.traces_validated += len(states)
         rep = {"config": cfg, "label": label, "which": which}
+        base = "|".join(label.split("|")[:3]) if sigfn is None else sigfn(cfg)
         if bad:
             s0, (kind, msg, script, p) = bad[0]
-            sig = "%s|%s|%s" % (prop, "|".join(label.split("|")[:3]), kind if kind != "exception" else "exception:" + msg.split(":")[0])
+            sig = "%s|%s|%s" % (prop, base, kind if kind != "exception" else "exception:" + msg.split(":")[0])
             ck.violation(sig, "%s from start %s on RNG script %s: %s  [%s]" % (kind, absstate.key_str(s0), script, msg, label),
                          dict(rep, start=absstate.to_json(s0), script=script, detail=msg))
             continue
@@ -182,15 +188,16 @@ def run_configs(ck, configs, table, which="tree", prop="C01", corrupt=None):
             ck.nontrivial(label)
         ck.extra.setdefault("residuals", {})[("%s:" % which) + label] = {"max_abs": st["max_abs"], "max_rel": st["max_rel"], "paths": paths, "states": len(states)}
         if st["escaped"] > 0:
-            ck.violation("%s|%s|escaped" % (prop, "|".join(label.split("|")[:3])), "mass %.3g leaves the universe of trees over all data [%s]" % (st["escaped"], label), rep)
+            ck.violation("%s|%s|escaped" % (prop, base), "mass %.3g leaves the universe of trees over all data [%s]" % (st["escaped"], label), rep)
         elif st["worst_row_sum_err"] > 1e-9:
-            ck.violation("%s|%s|rowsum" % (prop, "|".join(label.split("|")[:3])), "a kernel row sums to 1%+.3g [%s]" % (st["worst_row_sum_err"], label), rep)
+            ck.violation("%s|%s|rowsum" % (prop, base), "a kernel row sums to 1%+.3g [%s]" % (st["worst_row_sum_err"], label), rep)
         elif st["max_abs"] > TOL:
             w = st["worst_state"]
-            ck.violation("%s|%s|nonstationary" % (prop, "|".join(label.split("|")[:3])),
+            ck.violation("%s|%s|nonstationary" % (prop, base),
                          "posterior not invariant: max|piK-pi| = %.3g (rel %.3g) at %s [%s; %d paths]" % (
                              st["max_abs"], st["max_rel"], absstate.key_str(w), label, paths),
                          dict(rep, worst_state=absstate.to_json(w), max_abs=st["max_abs"], max_rel=st["max_rel"],
+                              fingerprint_label=("%s:" % which) + label, fingerprint="%.5e" % st["max_abs"],
                               pi={absstate.key_str(s): st["pi"][s] for s in states},
                               resid={absstate.key_str(s): st["resid"][s] for s in states}))
         if len(ck.samples) < 5 and len(states) > 1:
